@@ -121,6 +121,8 @@ def run_script(chk, prog, sim, up, get, kind, script, key):
                     elif cat == "S" and len(chk.samples) < 6 and g and g[0] == "S":
                         chk.sample({"kind": kind, "script": [c + ":" + t for c, t in script], "after": tag, "output": A.show(A.to_sympy(g[2]))[:200]})
         frontier = nxt
+        if not ok:
+            break      # the script has failed; later steps would only repeat the report (and can be very slow on a wrong formula)
     return ok
 
 
